@@ -18,6 +18,7 @@ EXPLANATION = (
     "restored = result-carrying attributes written by graph construction and critical_path), artefact file names "
     "and roles, csv index label, node_link convention, zip members, and the restoring constructor path. "
     "Decides the structural necessary conditions of save/restore identity, not pickle/CSV fidelity."
+    " Later additions: default pickling and generated hash/eq of the saved classes, untouched payload between creation and dump / load and installation, edge-set reset on recomputation."
 )
 
 MOD = "hta.analyzers.critical_path_analysis"
